@@ -13,6 +13,7 @@ pub fn plan_to_json(p: &Plan) -> Value {
     };
     json!({
         "crash_at": p.crash_at,
+        "compile_crash_at": p.compile_crash_at,
         "collect": collect,
         "budget": p.budget,
         "alloc_mode": alloc::mode_name(p.alloc_mode),
@@ -37,6 +38,7 @@ pub fn plan_from_json(v: &Value) -> Plan {
     };
     Plan {
         crash_at: v["crash_at"].as_u64(),
+        compile_crash_at: v["compile_crash_at"].as_u64(),
         collect,
         budget: v["budget"].as_u64().unwrap_or(200_000),
         alloc_mode: alloc::mode_from_name(v["alloc_mode"].as_str().unwrap_or("plain")),
